@@ -45,8 +45,13 @@ type scenarioSpec struct {
 	// ApplyConfigs: that many calls of ApplyConfig with a changed server list (same collector: the
 	// client closes and re-dials) while the senders run.  The collector stand-in then listens on
 	// port 6600, the only port ApplyConfig can point the client at.
-	ApplyConfigs int    `json:"apply_configs,omitempty"`
-	Seed         uint64 `json:"seed"`
+	ApplyConfigs int `json:"apply_configs,omitempty"`
+	// PreIdleMs: after the client is connected and process() runs, nothing happens for that long (longer
+	// than every internal wait of the client: see internalWaitMs) before the first pack is handed over.
+	// Burst: the packs after the idle period are handed over back to back (no pacing).
+	PreIdleMs int    `json:"pre_idle_ms,omitempty"`
+	Burst     bool   `json:"burst,omitempty"`
+	Seed      uint64 `json:"seed"`
 }
 
 type observation struct {
@@ -154,6 +159,9 @@ func (sc *scen) doSend(r *vh.Rng, sender, seq, big int) *sendRec {
 		rec.Class = errClass(err)
 		if err != nil {
 			rec.Err = err.Error()
+			if rec.Class != "enqueue" {
+				sc.srv.sendFailed()
+			}
 		}
 	}
 	rec.madePtr = &made
@@ -274,8 +282,11 @@ func runScenario(spec scenarioSpec) *observation {
 		}()
 	}
 
+	if spec.PreIdleMs > 0 {
+		time.Sleep(time.Duration(spec.PreIdleMs) * time.Millisecond)
+	}
 	root := vh.NewRng(spec.Seed)
-	budget := 20 * time.Second
+	budget := 20*time.Second + time.Duration(spec.PreIdleMs)*time.Millisecond
 	var wg sync.WaitGroup
 	for s := 0; s < spec.Senders; s++ {
 		r := root.Fork()
@@ -312,7 +323,7 @@ func runScenario(spec scenarioSpec) *observation {
 					// keep the consumer fed without flooding the queue (it sleeps 1.6 s whenever it finds the queue empty)
 					if rec.Class == "enqueue" {
 						time.Sleep(10 * time.Millisecond)
-					} else if atomic.LoadInt32(&sc.gated) == 0 {
+					} else if atomic.LoadInt32(&sc.gated) == 0 && !spec.Burst {
 						for w := 0; w < 50 && sc.backlog() > 32; w++ {
 							time.Sleep(2 * time.Millisecond)
 						}
